@@ -194,6 +194,11 @@ def gen_pcm_case(rng):
     for a in rng.sample(ALL, rng.randint(0, 4)):
         q = rng.randint(1, 500) * (1 if lo or rng.random() < 0.6 else -1)
         fills.append([a, q])
+    if fills and rng.random() < 0.4:
+        # a holding that was built and then partly trimmed (its gross legs differ from its net quantity)
+        a0, q0 = rng.choice(fills)
+        trim = -(abs(q0) // rng.choice([2, 3, 4]) or 1) * (1 if q0 > 0 else -1)
+        fills.append([a0, trim])
     if rng.random() < 0.5:
         uni = {'dynamic': [[a, (None if rng.random() < 0.1 else MON_OPEN + rng.choice([-86400, 0, 60, 86400 * 5, -3600]))]
                            for a in rng.sample(ALL, rng.randint(0, 6))]}
